@@ -213,7 +213,7 @@ func (f *fx) callModKeys(ci ssa.CallInstruction) (keys []string, all bool) {
 		}
 	}
 	if contract == nil || contract.Inline {
-		if fn != nil && len(fn.Blocks) > 0 && (fn.Parent() != nil || (contract != nil && contract.Inline)) {
+		if fn != nil && len(fn.Blocks) > 0 && (fn.Parent() != nil || (contract != nil && contract.Inline) || (contract == nil && !isLibraryFn(fn) && smallLoopFree(fn))) {
 			// inlined body: collect its stores
 			sub := &fx{e: f.e, sc: f.sc, fn: fn, top: f.top, depth: f.depth + 1, vals: map[ssa.Value]Val{}}
 			li := &loopInfo{body: map[*ssa.BasicBlock]bool{}}
@@ -241,6 +241,9 @@ func (f *fx) callModKeys(ci ssa.CallInstruction) (keys []string, all bool) {
 		return nil, true
 	}
 	keys = append(keys, "E:alloc")
+	if contract.NoReturn {
+		return keys, false // nothing it changes is visible on a path that continues
+	}
 	for _, m := range contract.Modifies {
 		switch m.Kind {
 		case "all":
@@ -348,6 +351,10 @@ func (f *fx) doCall(ci ssa.CallInstruction) Val {
 	ct := f.resolveCall(c)
 	var args []Val
 	if ct.recv != nil {
+		// a method call on a nil interface value is a run-time panic
+		if rv := f.reify(*ct.recv); rv.Sort == "Iface" && !f.noCrash() {
+			f.crash("nil-interface-call", T("Bool", "(not (= (itag %s) 0))", rv.S), ci.Pos())
+		}
 		args = append(args, *ct.recv)
 	}
 	for _, a := range c.Args {
@@ -511,6 +518,11 @@ func (f *fx) raise(cond Term, st *State, pval Term, what string, pos token.Pos) 
 func (f *fx) freshErrPanicValue() Term {
 	pv := f.sc.fresh("pval", "Iface")
 	f.sc.assert(T("Bool", "(not (= (itag %s) 0))", pv.S))
+	// an error-panic carries a value that implements error and is not a runtime.Error (those are crashes)
+	f.sc.assert(T("Bool", "(implements (itag %s) %d)", pv.S, f.e.sorts.ifaceID(types.Universe.Lookup("error").Type())))
+	if f.e.rtErrType != nil {
+		f.sc.assert(T("Bool", "(not (implements (itag %s) %d))", pv.S, f.e.sorts.ifaceID(f.e.rtErrType)))
+	}
 	return pv
 }
 
@@ -902,8 +914,11 @@ func (f *fx) contractCall(ct *callTarget, args []Val, pos token.Pos) Val {
 		}
 		f.oblige("requires", fmt.Sprintf("call:%s#%d/requires%s", ct.key, n, clauseName(rq, i)), g, rq.Props, where, "precondition of "+ct.key+": "+rq.Src)
 	}
-	// frame: callee's modifies must be allowed by ours
-	f.checkFrameCall(ct, renv, pos)
+	// frame: callee's modifies must be allowed by ours (a callee that never returns normally changes
+	// nothing that a normal exit of the caller could observe)
+	if !c.NoReturn {
+		f.checkFrameCall(ct, renv, pos)
+	}
 	if c.Trusted {
 		f.note("contract of " + ct.key + " is assumed (trusted: " + c.Reason + ")")
 	}
@@ -1140,6 +1155,15 @@ func (f *fx) finishPanics() {
 	}
 }
 
+// mapLen: len(m) as an uninterpreted function of the map's current domain (0 for the nil map).
+func (f *fx) mapLen(st *State, m Term, t *types.Map) Term {
+	_, dk := f.mapKeys(t)
+	ks := f.e.sorts.sortOf(t.Key())
+	name := "maplen_" + mangle(ks)
+	f.sc.declareOnce(name, fmt.Sprintf("(declare-fun %s (%s) Int)\n(assert (forall ((d %s)) (! (>= (%s d) 0) :pattern ((%s d)))))", name, arraySort(ks, "Bool"), arraySort(ks, "Bool"), name, name))
+	return ite(T("Bool", "(= %s 0)", m.S), intLit(0), app("Int", name, sel(f.get(st, dk), m)))
+}
+
 // ---------------------------------------------------------------------------
 // builtins
 
@@ -1156,11 +1180,7 @@ func (f *fx) builtin(b *ssa.Builtin, c *ssa.CallCommon, ci ssa.CallInstruction) 
 		case *types.Array:
 			return termVal(intLit(t.Len()))
 		case *types.Map:
-			f.sc.declareOnce("maplen", "(declare-fun maplen (Int Int) Int)")
-			f.note("len(map) is an uninterpreted function of the map and a version stamp")
-			r := f.sc.fresh("maplen", "Int")
-			f.sc.assert(T("Bool", "(>= %s 0)", r.S))
-			return termVal(r)
+			return termVal(f.mapLen(f.cur, a, t))
 		case *types.Pointer:
 			if at, ok := t.Elem().Underlying().(*types.Array); ok {
 				return termVal(intLit(at.Len()))
@@ -1237,6 +1257,17 @@ func (f *fx) builtin(b *ssa.Builtin, c *ssa.CallCommon, ci ssa.CallInstruction) 
 		return Val{Kind: vTuple}
 	case "print", "println":
 		return Val{Kind: vTuple}
+	case "complex", "real", "imag":
+		name := "cplx_" + b.Name()
+		var args []Term
+		var sorts []string
+		for i := range c.Args {
+			a := arg(i)
+			args = append(args, a)
+			sorts = append(sorts, a.Sort)
+		}
+		f.sc.declareOnce(name, fmt.Sprintf("(declare-fun %s (%s) Float)", name, strings.Join(sorts, " ")))
+		return termVal(app("Float", name, args...))
 	case "min", "max":
 		a, bb := arg(0), arg(1)
 		if b.Name() == "min" {
@@ -1364,13 +1395,16 @@ func (f *fx) checkFrameMap(m Term, pos token.Pos) {
 
 func (f *fx) frameAllowsMap(m Term) Term {
 	c := f.top.contract
+	if m.S == "0" {
+		return tTrue
+	}
 	for _, me := range c.Modifies {
 		if me.Kind == "mapsof" {
 			// NOTE: coarse: any mapsof entry licenses map updates (the map's static type is not tracked here)
 			return tTrue
 		}
 	}
-	alts := []Term{T("Bool", "(> %s %s)", m.S, f.top.entryAlloc.S)}
+	alts := []Term{T("Bool", "(> %s %s)", m.S, f.top.entryAlloc.S), T("Bool", "(= %s 0)", m.S)}
 	env := f.top.topEnv.withState(f.top.entry, f.top.entry)
 	for _, me := range c.Modifies {
 		if me.Kind == "map" {
